@@ -5,7 +5,8 @@
 From Coq Require Import List ZArith NArith String Bool.
 From SCC Require Import Lang.CoreSyn Model.Backend Model.Uniquify Model.Focus Model.FocusCheck
      Sem.AxSem Sem.CoreSem Proof.SubstProof Proof.FocusTheorems Proof.FocusExtra Proof.FocusExamples Proof.FocusSem
-     Proof.FocusKont Proof.FocusRel Proof.FocusSim Proof.FocusRun Proof.FocusFrag Proof.FocusPres Proof.FocusPresExamples.
+     Proof.FocusKont Proof.FocusRel Proof.FocusSim Proof.FocusRun Proof.FocusFrag Proof.FocusPres Proof.FocusPresExamples
+     Proof.UqAeq Proof.UqPres Proof.UqCompose.
 Import ListNotations.
 
 (* ---- uniqueness of binders -------------------------------------------------------------------
@@ -206,3 +207,43 @@ Theorem C03_focus_preserves_nonvacuous :
   checks_str ex_lists (100 * 50) (100 * 200) = true.
 Proof. exact (conj ex_order_ok (conj ex_data_ok ex_lists_ok)). Qed.
 Print Assumptions C03_focus_preserves_nonvacuous.
+
+(* ---- uniquify preserves behaviour -------------------------------------------------------------------
+   alpha-renaming: the uniquified program has the SAME observation as the input for every fuel and every
+   argument tuple (stuck and out-of-fuel runs included; lock-step simulation, Proof/UqSim.v).
+   Hypotheses: every identifier <= max_id (part of pre_check; otherwise a fresh name can capture, see
+   C03_focus_captures_when_id_above_max_refuted), the shape focus_wf (subst_sim does not panic), and
+   cs_prog (Proof/UqAeq.v): every occurrence refers to a binder of its own chirality - implied by typing;
+   uniquify keeps separate substitution lists for variables and covariables, so an occurrence of the
+   wrong chirality is left un-renamed (both programs are then stuck, with different messages).
+   Binder ids may be 0 or not, mixed (the stated precondition "all ids 0" is the special case). *)
+Theorem C03_uniquify_preserves :
+  forall p p1,
+    uniquify_prog p = Ok p1 -> focus_wf p = true -> forallb (ids_le_def (cpmax p)) (cpdefs p) = true ->
+    cs_prog p = true ->
+    forall fuel args, run_core fuel p1 args = run_core fuel p args.
+Proof. exact uniquify_preserves. Qed.
+Print Assumptions C03_uniquify_preserves.
+
+(* ---- uniquify + focus: C03_focus_preserves_statement on the fragment ----------------------------------
+   `Prog::focus` reproduces every defined run of its input (exit value or undefined arithmetic, prints in
+   order).  Beyond the hypotheses of C03_focus_preserves_statement: cs_prog (above) and the absence of
+   kind clashes, either on the run (clash_free_prog) or by the static guard sg_prog bn kr with
+   bn && kr = false (see the comment above C03_bind_correct).  Both are consequences of typing; what is
+   missing for the unrestricted statement is a Core type system and its preservation by the machine. *)
+Theorem C03_uniquify_focus_preserves_partial :
+  forall p q args fuel,
+    pre_check p = true -> focus_wf p = true -> cs_prog p = true -> focus_prog p = Ok q ->
+    clash_free_prog fuel p args = true -> good_end (snd (run_core fuel p args)) ->
+    exists fuel', run_fs fuel' q args = run_core fuel p args.
+Proof. exact uniquify_focus_preserves. Qed.
+Print Assumptions C03_uniquify_focus_preserves_partial.
+
+Theorem C03_uniquify_focus_preserves_fragment :
+  forall bn kr p q args fuel,
+    pre_check p = true -> focus_wf p = true -> cs_prog p = true -> focus_prog p = Ok q ->
+    bn && kr = false -> sg_prog bn kr p = true ->
+    good_end (snd (run_core fuel p args)) ->
+    exists fuel', run_fs fuel' q args = run_core fuel p args.
+Proof. exact uniquify_focus_preserves_guarded. Qed.
+Print Assumptions C03_uniquify_focus_preserves_fragment.
